@@ -77,6 +77,37 @@ theorem C03_body_unwind_is_the_procedure (fr : Option Nat) (fo A n : Nat) (mem :
           pops.map .popNonVolatile))) r = .ok ra r' :=
   interpOps_body fr fo A n mem saves pops r ra r' hb hs hn hlt hspec
 
+/-- **Which codes apply inside the prolog.** On a code array sorted by descending prolog offset
+(as UNWIND_INFO stores it), the operations framehop gathers for a pc at prolog offset `o` are
+exactly those of the instructions that have completed (`offset ≤ o`). -/
+theorem C03_prolog_offset_selects_executed_codes (codes : List (Nat × PeOp)) (o : Nat)
+    (hsorted : codes.Pairwise (fun a b => a.1 ≥ b.1)) :
+    gatherOps [⟨codes⟩] o = (codes.filter (fun p => p.1 ≤ o)).map (·.2) :=
+  gatherOps_single codes o hsorted
+
+/-- **Exact at every instruction boundary of the prolog.** The thread has executed some of the
+pushes (`pops`), possibly the allocation, possibly the frame-register setup, some of the movs
+(`saves`); the operations gathered for that point (previous theorem) then unwind exactly as the
+layout says: restore what was saved, undo the allocation if it happened, pop what was pushed. The
+body is the special case where everything has been executed (`C03_body_unwind_is_the_procedure`). -/
+theorem C03_prolog_prefix_unwind_is_the_procedure (fr : Option Nat) (fo A n : Nat) (mem : Mem)
+    (saves : List (Nat × Nat)) (pops : List Nat) (allocDone setfpDone : Bool) (r : Nat → Nat)
+    (ra : Nat) (r' : Nat → Nat)
+    (hbase : if setfpDone then ∃ f, fr = some f ∧ r (peReg f) = A + fo
+      else r RSP = (if allocDone then A else A + n))
+    (horder : (setfpDone = true → allocDone = true) ∧
+      (saves ≠ [] → allocDone = true ∧ (setfpDone = true ∨ fr = none)))
+    (hs : ∀ p ∈ saves, peReg p.1 ≠ RSP ∧ (∀ f, fr = some f → peReg p.1 ≠ peReg f) ∧
+      mem (A + p.2) ≠ none ∧ A + p.2 < U64)
+    (hn : RSP ∉ pops.map peReg) (hlt : A + n + 8 * pops.length + 8 < U64)
+    (hspec : popSpecLoop mem (pops.map peReg) (A + n)
+      (setReg (restoreSaves mem A saves r) RSP (A + n)) = some (ra, r')) :
+    interpOps fr fo mem
+      (saves.map (fun p => .readNonVolatile p.1 p.2) ++
+        ((if setfpDone then [.restoreSPFromFP] else []) ++ ((if allocDone then [.unStackAlloc n] else []) ++
+          pops.map .popNonVolatile))) r = .ok ra r' :=
+  interpOps_prolog_prefix fr fo A n mem saves pops allocDone setfpDone r ra r' hbase horder hs hn hlt hspec
+
 /-- Non-vacuity: `push rbx; push rbp; sub rsp, 0x40; lea rbp, [rsp+0x20]; mov [rsp+0x30], rsi`
 with the thread in the body after a dynamic allocation of 0x100 bytes (rsp no longer at the frame
 base). -/
@@ -100,6 +131,112 @@ example :
       funext j
       simp only [setReg, RSP]
       by_cases h7 : j = 7 <;> by_cases h6 : j = 6 <;> by_cases h3 : j = 3 <;> by_cases h4 : j = 4 <;> simp [*])
+  simpa using h
+
+
+/-! ## Whole walks over PE frames -/
+
+/-- One PE frame of a call chain: how far its function got (all of the prolog for caller
+frames and for a thread stopped in the body; a prefix for a thread stopped inside the prolog)
+and where its frame lies. -/
+structure PeFrame where
+  fr : Option Nat
+  fo : Nat
+  A : Nat
+  n : Nat
+  saves : List (Nat × Nat)
+  pops : List Nat
+  allocDone : Bool
+  setfpDone : Bool
+
+def PeFrame.ops (f : PeFrame) : List PeOp :=
+  f.saves.map (fun p => .readNonVolatile p.1 p.2) ++
+    ((if f.setfpDone then [.restoreSPFromFP] else []) ++ ((if f.allocDone then [.unStackAlloc f.n] else []) ++
+      f.pops.map .popNonVolatile))
+
+/-- The frame is laid out as documented and the registers are inside it. -/
+def PeFrame.LaidOut (f : PeFrame) (mem : Mem) (r : Nat → Nat) : Prop :=
+  (if f.setfpDone then ∃ g, f.fr = some g ∧ r (peReg g) = f.A + f.fo
+    else r RSP = (if f.allocDone then f.A else f.A + f.n)) ∧
+  ((f.setfpDone = true → f.allocDone = true) ∧
+    (f.saves ≠ [] → f.allocDone = true ∧ (f.setfpDone = true ∨ f.fr = none))) ∧
+  (∀ p ∈ f.saves, peReg p.1 ≠ RSP ∧ (∀ g, f.fr = some g → peReg p.1 ≠ peReg g) ∧
+    mem (f.A + p.2) ≠ none ∧ f.A + p.2 < U64) ∧
+  RSP ∉ f.pops.map peReg ∧ f.A + f.n + 8 * f.pops.length + 8 < U64 ∧
+  r RSP ≤ f.A + f.n + 8 * f.pops.length
+
+/-- A true call chain of PE frames: each frame's documented layout yields (by the documented pop
+procedure) the return address and the registers of the next frame; the root's return address is
+null. -/
+inductive PeChain (mem : Mem) : List PeFrame → RegsX64 → List Nat → Prop where
+  | root (f : PeFrame) (regs : RegsX64) (r' : Nat → Nat) (hl : f.LaidOut mem regs.r)
+      (hspec : popSpecLoop mem (f.pops.map peReg) (f.A + f.n)
+        (setReg (restoreSaves mem f.A f.saves regs.r) RSP (f.A + f.n)) = some (0, r')) :
+      PeChain mem [f] regs []
+  | step (f : PeFrame) (rest : List PeFrame) (regs : RegsX64) (ra : Nat) (r' : Nat → Nat)
+      (ras : List Nat) (hl : f.LaidOut mem regs.r) (hra : ra ≠ 0)
+      (hspec : popSpecLoop mem (f.pops.map peReg) (f.A + f.n)
+        (setReg (restoreSaves mem f.A f.saves regs.r) RSP (f.A + f.n)) = some (ra, r'))
+      (tail : PeChain mem rest { ip := ra, r := r' } ras) :
+      PeChain mem (f :: rest) regs (ra :: ras)
+
+/-- The walk: interpret each frame's operations, commit (progress check in caller frames), a
+null return address ends the walk (`with_cache`). -/
+def walkPe (mem : Mem) : Bool → List PeFrame → RegsX64 → List Res
+  | _, [], _ => []
+  | first, f :: rest, regs =>
+    match peRun (.interp f.fr f.fo f.ops) first regs mem with
+    | .ok ra regs' => if ra = 0 then [.done] else .frame ra :: walkPe mem false rest regs'
+    | _ => [.err .integerOverflow]
+
+theorem peRun_laidOut (f : PeFrame) (mem : Mem) (first : Bool) (regs : RegsX64) (ra : Nat)
+    (r' : Nat → Nat) (hl : f.LaidOut mem regs.r)
+    (hspec : popSpecLoop mem (f.pops.map peReg) (f.A + f.n)
+      (setReg (restoreSaves mem f.A f.saves regs.r) RSP (f.A + f.n)) = some (ra, r')) :
+    peRun (.interp f.fr f.fo f.ops) first regs mem = .ok ra { ip := ra, r := r' } := by
+  obtain ⟨h1, h2, h3, h4, h5, h6⟩ := hl
+  have hi := interpOps_prolog_prefix f.fr f.fo f.A f.n mem f.saves f.pops f.allocDone f.setfpDone
+    regs.r ra r' h1 h2 h3 h4 h5 hspec
+  have hsp := popSpecLoop_sp mem (f.pops.map peReg) (f.A + f.n) _ ra r' h4 hspec
+  simp only [List.length_map] at hsp
+  simp only [peRun, PeFrame.ops, hi, peCommit]
+  have : ¬ ((!first) = true ∧ r' RSP ≤ regs.sp) := by
+    intro ⟨_, hle⟩
+    simp only [RegsX64.sp] at hle
+    omega
+  simp only [this, if_false]
+
+/-- **C03, whole walks.** Walking a true chain of PE frames - the innermost one stopped anywhere
+in its prolog or body, any depth, any registers - yields exactly the chain's return addresses and
+completes with `Ok(None)` at the root. -/
+theorem C03_walk (mem : Mem) (first : Bool) (frames : List PeFrame) (regs : RegsX64) (ras : List Nat)
+    (h : PeChain mem frames regs ras) :
+    walkPe mem first frames regs = ras.map .frame ++ [.done] := by
+  induction h generalizing first with
+  | root f regs r' hl hspec =>
+    simp [walkPe, peRun_laidOut f mem first regs 0 r' hl hspec]
+  | step f rest regs ra r' ras hl hra hspec tail ih =>
+    simp only [walkPe, peRun_laidOut f mem first regs ra r' hl hspec, hra, if_false, List.map_cons,
+      List.cons_append]
+    rw [ih]
+
+
+/-- Non-vacuity: a two-frame chain (a function that pushed rbx and allocated 0x20 bytes, called
+from a root whose return address is null). -/
+example :
+    let mem : Mem := fun a => if a = 0x1020 then some 0xb0b else if a = 0x1028 then some 0x401000
+      else if a = 0x1040 then some 0 else none
+    let r0 : Nat → Nat := fun i => if i = RSP then 0x1000 else 5
+    let f1 : PeFrame := { fr := none, fo := 0, A := 0x1000, n := 0x20, saves := [], pops := [3], allocDone := true, setfpDone := false }
+    let f2 : PeFrame := { fr := none, fo := 0, A := 0x1030, n := 0x10, saves := [], pops := [], allocDone := true, setfpDone := false }
+    walkPe mem true [f1, f2] { ip := 0x400000, r := r0 } = [.frame 0x401000, .done] := by
+  intro mem r0 f1 f2
+  have h := C03_walk mem true [f1, f2] { ip := 0x400000, r := r0 } [0x401000] (by
+    refine PeChain.step f1 [f2] _ 0x401000
+      (setReg (setReg (setReg r0 RSP 0x1020) 3 0xb0b) RSP 0x1030) [] ?_ (by decide) rfl ?_
+    · simp [PeFrame.LaidOut, f1, r0, peReg, RSP, U64]
+    · refine PeChain.root f2 _ (setReg (setReg (setReg (setReg (setReg r0 RSP 0x1020) 3 0xb0b) RSP 0x1030) RSP 0x1040) RSP 0x1048) ?_ rfl
+      simp [PeFrame.LaidOut, f2, setReg, RSP, U64])
   simpa using h
 
 /-- A kernel-checked *test* (not the unbounded claim, which is `C03_register_order_roundtrip`):
